@@ -31,7 +31,7 @@ func CreatePropellerUnits(
 		return nil, fmt.Errorf("encoding the message: %w", err)
 	}
 
-	merkleRoot, merkleTree := merkle.New(encodedMessage)
+	merkleRoot, merkleTree := merkle.New(merkleLeaves(encodedMessage))
 	messageRoot := MessageRoot(merkleRoot)
 
 	signature, err := SignMessage(privKey, &messageRoot, committeeID, nonce)
@@ -55,6 +55,18 @@ func CreatePropellerUnits(
 		}
 	}
 	return units, nil
+}
+
+// merkleLeaves returns the leaves the message root commits to: the protobuf encoding
+// of the shards one unit carries (see propeller.proto and UnitValidator), so that a
+// unit's proof can be verified from its wire form in any language.
+func merkleLeaves(shards [][]byte) [][]byte {
+	leaves := make([][]byte, len(shards))
+	for i, shard := range shards {
+		// todo(rdr): one shard per unit, as everywhere else in this file
+		leaves[i] = ShardData{Shard(shard)}.MarshalProto()
+	}
+	return leaves
 }
 
 // ConstructMessageFromUnits receives Propeller units, recovers any missing data and returns
@@ -95,7 +107,7 @@ func ConstructMessageFromUnits(
 		}
 	}
 
-	merkleRoot, merkleTree := merkle.New(shards)
+	merkleRoot, merkleTree := merkle.New(merkleLeaves(shards))
 
 	// Any subset of units may be missing, including the first one: take the claimed
 	// root from the first unit that is present.
